@@ -408,7 +408,7 @@ func randomHistory(en *Env, i int, stats map[string]int) {
 	go func() { wg.Wait(); close(done) }()
 	select {
 	case <-done:
-	case <-time.After(h.CallTimeout):
+	case <-h.After(h.CallTimeout):
 		en.T.Emit(h.Ev{"ev": "note", "check": "nostuck", "ok": false})
 		h.ExitIfStuck("stuck", en.T)
 	}
